@@ -828,3 +828,206 @@ func KnownD16Check(t *testing.T) {
 		}
 	})
 }
+
+// ---- two-package instance precedence --------------------------------------------------------------
+
+// PrecedenceCheck: a type declared in package pa, derived in working package pw; instances for the
+// field type pa.MyInt may exist in pw (working package), in pa (the type's own package) or nowhere
+// (derive package fallback). They are made observably different; the reference uses the instance the
+// documented rule selects: working package, then the type's package, then the derive package.
+func PrecedenceCheck(t *testing.T, name string, casesPerProcess int) {
+	kit.Check(t, name, "configuration drawn: typeclass (Eq/Ord/Monoid), which of {working package, type's package} declare an instance for the field type pa.MyInt, how the working-package instance is named (EqPaMyInt / EqMyInt), field values; two scratch packages pa (type, @fp.Value) and pw (directive); oracle: the derived instance for pa.T behaves field-wise with the instance the documented precedence selects; non-trivial iff both packages declare an instance; distinct by configuration+values", kit.Opt{Abs: casesPerProcess, HangAfter: 20 * time.Minute}, func(rt *rapid.T, rec *kit.Rec) {
+		class := rapid.SampledFrom([]string{"Eq", "Ord", "Monoid"}).Draw(rt, "class")
+		pwInst := rapid.Bool().Draw(rt, "instanceInWorkingPkg")
+		paInst := rapid.Bool().Draw(rt, "instanceInTypePkg")
+		if class == "Monoid" && !pwInst && !paInst {
+			paInst = true // no fallback instance exists for a numeric Monoid: gombok rejects ("can't summon")
+		}
+		prefixed := rapid.Bool().Draw(rt, "prefixedName")
+		vals := make([][3]string, 4)
+		for i := range vals {
+			n := rapid.IntRange(0, 12).Draw(rt, "name")
+			c := rapid.IntRange(0, 3).Draw(rt, "count")
+			k := rapid.IntRange(0, 2).Draw(rt, "ntags")
+			tags := []string{}
+			for j := 0; j < k; j++ {
+				tags = append(tags, strconv.Itoa(rapid.IntRange(0, 12).Draw(rt, "tag")))
+			}
+			vals[i] = [3]string{strconv.Itoa(n), strconv.Itoa(c), "[]pa.MyInt{" + strings.Join(tags, ", ") + "}"}
+		}
+		desc := fmt.Sprintf("class=%s pw=%v(prefixed=%v) pa=%v values=%v", class, pwInst, prefixed, paInst, vals)
+		rec.Case(pwInst && paInst, desc)
+		rec.Label("class:" + class)
+		pkg := dClassPkg[class]
+		// level semantics
+		lvl := "none"
+		if pwInst {
+			lvl = "pw"
+		} else if paInst {
+			lvl = "pa"
+		}
+		instBody := func(level string) string {
+			switch class {
+			case "Eq":
+				m := map[string]string{"pw": "2", "pa": "3"}[level]
+				return "eq.New(func(a, b MyIntT) bool { return a%" + m + " == b%" + m + " })"
+			case "Ord":
+				if level == "pw" {
+					return "ord.New(eq.Given[MyIntT](), func(a, b MyIntT) bool { return a > b })"
+				}
+				return "ord.New(eq.Given[MyIntT](), func(a, b MyIntT) bool { return a%5 < b%5 || (a%5 == b%5 && a < b) })"
+			default:
+				if level == "pw" {
+					return "monoid.Product[MyIntT]()"
+				}
+				return "monoid.Sum[MyIntT]()"
+			}
+		}
+		m, err := scratch.NewModule()
+		if err != nil {
+			rec.Failf(rt, "HARNESS|infra", "%v", err)
+		}
+		defer m.Remove()
+		pa := "package pa\n\nimport (\n\t\"github.com/csgura/fp\"\n\t\"github.com/csgura/fp/eq\"\n\t\"github.com/csgura/fp/monoid\"\n\t\"github.com/csgura/fp/ord\"\n)\n\nvar _ fp.Unit\nvar _ = eq.Given[int]\nvar _ = monoid.String\nvar _ = ord.Given[int]\n\ntype MyInt int\n\n"
+		if paInst {
+			pa += "// instance in the type's own package\nvar " + class + "MyInt = " + strings.ReplaceAll(instBody("pa"), "MyIntT", "MyInt") + "\n\n"
+		}
+		pa += "// @fp.Value\ntype T struct {\n\tname MyInt\n\tcount int\n\ttags []MyInt\n}\n"
+		_ = m.WriteFile("pa/types.go", pa)
+		pw := "package pw\n\nimport (\n\t\"scratch/pa\"\n\n\t\"github.com/csgura/fp\"\n\t\"github.com/csgura/fp/eq\"\n\t\"github.com/csgura/fp/monoid\"\n\t\"github.com/csgura/fp/ord\"\n)\n\nvar _ fp.Unit\nvar _ = eq.Given[int]\nvar _ = monoid.String\nvar _ = ord.Given[int]\nvar _ pa.MyInt\n\nvar MonoidInt = monoid.Sum[int]()\n\n"
+		if pwInst {
+			n := class + "MyInt"
+			if prefixed {
+				n = class + "PaMyInt"
+			}
+			pw += "// instance in the working package\nvar " + n + " = " + strings.ReplaceAll(instBody("pw"), "MyIntT", "pa.MyInt") + "\n\n"
+		}
+		pw += "// @fp.Derive\nvar _ " + pkg + ".Derives[fp." + class + "[pa.T]]\n"
+		_ = m.WriteFile("pw/derive.go", pw)
+		for _, d := range []string{"pa", "pw"} {
+			g := m.RunGombok(d, d)
+			if g.ExitCode != 0 || strings.Contains(g.Out, "panic:") {
+				if strings.Contains(g.Out, "can't summon") {
+					rec.Label("rejected")
+					return
+				}
+				rec.Failf(rt, "C08|precedence|gombok-failed|"+class, "gombok failed in %s: %s\n%s", d, clip(g.Out, 1200), desc)
+			}
+		}
+		if r := m.Go(180*time.Second, "build", "./..."); r.ExitCode != 0 {
+			if strings.Contains(r.Out, "no space left on device") {
+				rec.Failf(rt, "HARNESS|infra|resource-exhaustion", "%s", clip(r.Out, 400))
+			}
+			rec.Failf(rt, "C08|precedence|compile|"+class, "generated code does not compile: %s\n%s\n--- derive file:\n%s", clip(r.Out, 1200), desc, clip(m.ReadFile("pw/pw_derive_generated.go"), 1500))
+		}
+		// emitted test in pw: reference with the selected level
+		var tb strings.Builder
+		tb.WriteString("package pw\n\nimport (\n\t\"fmt\"\n\t\"testing\"\n\n\t\"scratch/pa\"\n)\n\n")
+		fmt.Fprintf(&tb, "const level = %q\nconst class = %q\n\n", lvl, class)
+		tb.WriteString(`func eqMy(a, b pa.MyInt) bool {
+	switch level {
+	case "pw":
+		return a%2 == b%2
+	case "pa":
+		return a%3 == b%3
+	}
+	return a == b
+}
+
+func lessMy(a, b pa.MyInt) bool {
+	switch level {
+	case "pw":
+		return a > b
+	case "pa":
+		return a%5 < b%5 || (a%5 == b%5 && a < b)
+	}
+	return a < b
+}
+
+func combMy(a, b pa.MyInt) pa.MyInt {
+	if level == "pw" {
+		return a * b
+	}
+	return a + b
+}
+
+func refEq(x, y pa.T) bool {
+	if !eqMy(x.Name(), y.Name()) || x.Count() != y.Count() || len(x.Tags()) != len(y.Tags()) {
+		return false
+	}
+	for i := range x.Tags() {
+		if !eqMy(x.Tags()[i], y.Tags()[i]) {
+			return false
+		}
+	}
+	return true
+}
+
+func refCmp(x, y pa.T) int {
+	c := func(a, b pa.MyInt) int {
+		if lessMy(a, b) {
+			return -1
+		}
+		if lessMy(b, a) {
+			return 1
+		}
+		return 0
+	}
+	if r := c(x.Name(), y.Name()); r != 0 {
+		return r
+	}
+	if x.Count() != y.Count() {
+		if x.Count() < y.Count() {
+			return -1
+		}
+		return 1
+	}
+	n := len(x.Tags())
+	if len(y.Tags()) < n {
+		n = len(y.Tags())
+	}
+	for i := 0; i < n; i++ {
+		if r := c(x.Tags()[i], y.Tags()[i]); r != 0 {
+			return r
+		}
+	}
+	if len(x.Tags()) != len(y.Tags()) {
+		if len(x.Tags()) < len(y.Tags()) {
+			return -1
+		}
+		return 1
+	}
+	return 0
+}
+
+`)
+		tb.WriteString("var values = []pa.T{\n")
+		for _, v := range vals {
+			fmt.Fprintf(&tb, "\tpa.TBuilder{}.Name(%s).Count(%s).Tags(%s).Build(),\n", v[0], v[1], v[2])
+		}
+		tb.WriteString("}\n\nfunc TestPrecedence(t *testing.T) {\n\tfailed := false\n\tfor _, x := range values {\n\t\tfor _, y := range values {\n")
+		switch class {
+		case "Eq":
+			tb.WriteString("\t\t\tif got, want := EqPaT().Eqv(x, y), refEq(x, y); got != want {\n\t\t\t\tfmt.Printf(\"LAWFAIL\\tT\\tEq|precedence\\tEqv(%v, %v) = %v, the instance selected by the documented precedence (%s) gives %v\\n\", x, y, got, level, want)\n\t\t\t\tfailed = true\n\t\t\t}\n")
+		case "Ord":
+			tb.WriteString("\t\t\tif got, want := OrdPaT().Less(x, y), refCmp(x, y) < 0; got != want {\n\t\t\t\tfmt.Printf(\"LAWFAIL\\tT\\tOrd|precedence\\tLess(%v, %v) = %v, the instance selected by the documented precedence (%s) gives %v\\n\", x, y, got, level, want)\n\t\t\t\tfailed = true\n\t\t\t}\n")
+		default:
+			tb.WriteString("\t\t\tgot := MonoidPaT().Combine(x, y)\n\t\t\tok := got.Name() == combMy(x.Name(), y.Name()) && got.Count() == x.Count()+y.Count() && len(got.Tags()) == len(x.Tags())+len(y.Tags())\n\t\t\tif !ok {\n\t\t\t\tfmt.Printf(\"LAWFAIL\\tT\\tMonoid|precedence\\tCombine(%v, %v) = %v is not field-wise with the instance selected by the documented precedence (%s)\\n\", x, y, got, level)\n\t\t\t\tfailed = true\n\t\t\t}\n")
+		}
+		tb.WriteString("\t\t}\n\t}\n\tif failed {\n\t\tt.Fatal(\"law failures\")\n\t}\n\tfmt.Println(\"LAWS-OK\")\n}\n")
+		_ = m.WriteFile("pw/zz_prec_test.go", tb.String())
+		r := m.Go(300*time.Second, "test", "-count=1", "-vet=off", "-v", "./pw")
+		if strings.Contains(r.Out, "[build failed]") {
+			rec.Failf(rt, "HARNESS|infra|law-test-does-not-compile", "%s\n%s", clip(r.Out, 2000), desc)
+		}
+		for _, l := range strings.Split(r.Out, "\n") {
+			if strings.HasPrefix(l, "LAWFAIL\t") {
+				parts := strings.SplitN(l, "\t", 4)
+				rec.Failf(rt, "C08|precedence|"+parts[2], "%s\n%s\n--- derive file:\n%s", parts[3], desc, clip(m.ReadFile("pw/pw_derive_generated.go"), 1500))
+			}
+		}
+		if !strings.Contains(r.Out, "LAWS-OK") {
+			rec.Failf(rt, "HARNESS|infra|law-test-did-not-run", "%s", clip(r.Out, 1500))
+		}
+	})
+}
